@@ -157,6 +157,8 @@ def main(argv=None):
         prog, th, fdir = load_program(repo, all_targets=False)
         ctx = Ctx(prop, args.tier, seed, prog, th, fdir)
         ctx.repo = repo
+        from . import cfgq as _cfgq
+        _cfgq.PROG = prog
         pc = {"skipped": True} if args.no_fixture else positive_control(mod, args.tier, seed)
         run_rules(mod, ctx)
         extra = {}
